@@ -550,6 +550,8 @@ func (p *Parser) parseOption(s *parseState, name string, option *Option, canarg 
 		}
 	} else if option.OptionalArgument {
 		option.empty()
+		option.isSet = true
+		option.preventDefault = true
 
 		for _, v := range option.OptionalValue {
 			err = option.Set(&v)
